@@ -179,7 +179,14 @@ fn body_of(len: usize) -> Vec<u8> {
 fn one(p: &mut Part, probe: &ChannelProbe, ch: &Channel, chan: u16, frame_max: usize, exchange: &str, rk: &str, mandatory: bool, immediate: bool, body: &[u8], props: &AmqpProperties, label: Value) {
     p.evaluations += 1;
     p.distinct_nontrivial += 1;
-    let r = ch.basic_publish(exchange, Publish { body, routing_key: rk.to_string(), mandatory, immediate, properties: props.clone() });
+    let r = std::panic::catch_unwind(std::panic::AssertUnwindSafe(|| ch.basic_publish(exchange, Publish { body, routing_key: rk.to_string(), mandatory, immediate, properties: props.clone() })));
+    let r = match r {
+        Ok(r) => r,
+        Err(e) => {
+            p.violation("publish:panic", format!("{}: basic_publish panicked: {}", label, crate::slots::panic_msg(&e)), json!({"engine":"seqx","check":"publish","case":label}));
+            return;
+        }
+    };
     let verdict = match r {
         Err(e) => Err(("publish:error".into(), format!("{:?}", e))),
         Ok(()) => tapped_envs(probe).and_then(|envs| {
@@ -193,6 +200,7 @@ fn one(p: &mut Part, probe: &ChannelProbe, ch: &Channel, chan: u16, frame_max: u
 }
 
 pub fn run(args: &Args) {
+    std::panic::set_hook(Box::new(|_| {}));
     let thorough = args.thorough();
     let mut part = Part::new("C02", "publish", "seqx", "exploration", &args.tier);
     part.rule = "real Channel::basic_publish / Exchange::publish calls on a real channel handle whose queue to the I/O thread is tapped: frame_max in {4096,4097,8192,131072,0} x body lengths {0,1,2,P-1,P,P+1,2P-1,2P,2P+1,3P,3P+1,5P+7} (P=frame_max-8) x mandatory x immediate x exchange/routing-key classes; all 2^14 subsets of the 14 basic properties (fixed values) plus boundary values; pairs of consecutive publishes. Every case is distinct and non-trivial.".into();
